@@ -1,5 +1,7 @@
 import Neutrino.Props.C03
 import Neutrino.Props.C03Verify
+import Neutrino.Props.C03Sanity
+import Neutrino.Props.C03Scan
 open Neutrino.CFHeaders
 #print axioms C03_source_facts
 #print axioms C03_not_ahead
@@ -20,6 +22,11 @@ open Neutrino.CFHeaders
 #print axioms C03_checkpoints_resolve
 #print axioms C03_belongs_stale_batch
 #print axioms C03_response_exact
+#print axioms C03_sanity_spec
+#print axioms C03_sanity_agreement
+#print axioms C03_sanity_first
+#print axioms C03_sanity_forgery_noticed
+#print axioms C03_honest_wins_all_self_consistent
 open Neutrino.VerifyFilter in
 #print axioms C03_verify_rejects_iff_omits
 open Neutrino.VerifyFilter in
